@@ -1,6 +1,6 @@
 SPECIFICATION Spec
 CONSTANTS
-  Tier = "t"
+  Tier = "n"
   Seed = 1
   Impl = "asis"
 INVARIANTS TypeOK HeaderBraceSound
